@@ -20,16 +20,16 @@ CHECKS = {
     "C04": (A, "4.4", "differential monitor (same seeded time-scripted scenario with and without spoofed requests; victim-visible observables compared) + offline history monitors for routing by tunnel address, slot takeover and expiry over adversarial multi-session histories",
             "held on every executed pair and history: every request naming the victim's userid from a foreign address refused and without effect on the packets delivered to the victim, its session row, its transfer state and the server's tun writes; packets for address A delivered only to the logged-in holder of A; no VACK for a slot with an accepted message < 60 s earlier; no service after > 60 s of silence",
             "observables are compared at a granularity insensitive to when a datagram wakes the server inside its 20 ms send-real-soon window; behaviour at exactly 60 s is not asserted; a correct raw login from another address legitimately rebinds"),
-    "C05": (A, "4.5", "ASan/UBSan inside the real iodined + watchdog + health probe under structure-aware hostile datagram generators, never-ending fragment streams, exhausted slot pool and failing tun reads, plus ordinary multi-session/tunnel traffic; a share of the scenarios is repeated with a non-sanitized build under valgrind memcheck (uninitialised values)",
+    "C05": (A, "4.5", "ASan/UBSan inside the real iodined + structural invariants of the users[] table evaluated by the shim at every select() + watchdog + health probe under structure-aware hostile datagram generators, never-ending fragment streams, exhausted slot pool and failing tun reads, plus ordinary multi-session/tunnel traffic; a share of the scenarios is repeated with a non-sanitized build under valgrind memcheck (uninitialised values)",
             "no sanitizer report, exit or stall on any executed hostile input sequence (8 generator classes x 11 pre-attack session states x server options), and a session established before the attack still moved a frame each way afterwards",
             "a clean sanitizer run is not memory safety (intra-object / non-adjacent overflows invisible); only executed paths are judged; GCC-defined signed '<<' (shift-base) is not counted as UB"),
     "C08": (B, "4.8", "real client name builders -> strict name checker -> real server dispatcher in one process (statics reached by #include), over the full (L, domain length, codec) grid",
             "held on every generated name: thorough tier covers every (L 100..255, domain length, codec) triple; legality/length/suffix checked by an independent label walker, extraction compared with payload[:reported]",
             "domains, payload contents and user slots are seeded samples per triple; login needs 31 Base32 chars and is judged as prefix-only when the name budget is smaller"),
-    "C09": (B, "4.9", "real server reply writer -> real client reply reader in one process, every payload length, prefix/monotonicity/floor oracle plus a committed table of lengths known to fit each answer format, ASan on exact-size buffers",
+    "C09": (B, "4.9", "real server reply writer -> real client reply reader in one process (also in the form a CNAME-chasing resolver hands answers on), every payload length, prefix/monotonicity/floor oracle plus a committed table of lengths known to fit each answer format; Engine A: the real client's own autoprobe on a direct path must end where that table says its search ends; ASan on exact-size buffers",
             "held on every executed (query type, codec, name, buffer size, length, content) case: every length 2..4096 in the thorough tier",
             "payload contents are 5 styles; exact set judged per content style"),
-    "C06": (A, "4.6", "ASan/UBSan inside the real iodine client + watchdog + tun-silence monitor, against a model server that turns hostile at a chosen handshake step, hostile tunnel-phase answers, and an on-path spoofer next to the real server (DNS and raw mode), plus ordinary tunnel traffic; a share of the scenarios is repeated with a non-sanitized build under valgrind memcheck (uninitialised values)",
+    "C06": (A, "4.6", "ASan/UBSan inside the real iodine client + watchdog + tun-silence monitor, against a model server that turns hostile at a chosen handshake step, hostile tunnel-phase answers, and an on-path spoofer (incl. runs in which it never matches a query, ended by a delivery probe judged against a silent twin); Engine B driver over a whole cycle of the client's 16-bit query id (unmatched answers at every step) next to the real server (DNS and raw mode), plus ordinary tunnel traffic; a share of the scenarios is repeated with a non-sanitized build under valgrind memcheck (uninitialised values)",
             "no sanitizer report, signal or reproduced stall on any executed reply sequence (11 handshake steps x 17 hostile classes x query types x downstream codecs x once/repeated/sticky); packets planted in answers with a non-recent id or foreign first character never reached the client's tun",
             "a clean sanitizer run is not memory safety; an ordinary client exit is correct; GCC-defined signed '<<' (shift-base) is not counted as UB"),
     "C07": (B, "4.7", "sanitizer-instrumented unit driver with round-trip / alphabet / capacity oracle over enumerated inputs",
@@ -47,7 +47,7 @@ CHECKS = {
     "C13": (A, "4.13", "system() boundary monitor: every command the real client passes to system() is matched against a strict grammar while a model server feeds hostile login replies; plus the tree's tun.c compiled for LINUX/FREEBSD/OPENBSD/NETBSD with system() replaced by a recorder and fed the same hostile corpus",
             "held on every executed login reply: four fields replaced individually and jointly by metacharacter strings, inet_addr-accepted non-dotted-quad forms, out-of-range numbers, fillers, random bytes; 7 query types x 5 downstream encodings",
             "Linux ifconfig command grammar of tun.c; the interface name is local, not peer-derived"),
-    "C14": (A, "4.14", "boundary multiset monitor (answers consume received queries) + quiescent-point held-query bound",
+    "C14": (A, "4.14", "boundary multiset monitor (answers consume received queries; replies of the local DNS server handed on under -b go to somebody who asked with that id) + quiescent-point held-query bound (two in lazy mode; none for longer than 0.5 virtual s in immediate mode; queries held from a lazy phase go out)",
             "held on every executed history: each server answer matched one-to-one with a received query datagram; at every select() at most two distinct never-answered ping/data queries per session",
             "histories are seeded samples; session attribution uses the userid encoded in the query"),
     "C15": (A, "4.15", "independent downstream decoder over every data answer (size bound, fragment numbering, last flag vs offered frames)",
